@@ -55,7 +55,7 @@ def generate(r, tier):
                          for _ in range(r.randint(0, 2))]
     sc["initial"] = r.choice(["empty", "tool", "tool", "hand"])
     # under policy kconfig (stale stored defaults are ignored and reported, nothing is pinned) also a file of another tree version
-    sc["prog_alt"] = kgen.evolve(r, prog) if (sc["policy"] == "kconfig" and r.random() < 0.5) else None
+    sc["prog_alt"] = kgen.evolve(r, prog) if r.random() < (0.5 if sc["policy"] == "kconfig" else 0.3) else None
     if sc["prog_alt"] and r.random() < 0.4:
         sc["initial"] = "alt"
     sc["reqs"] = srvgen.gen_requests(r, prog, r.randint(1, 25 if big else 18), sc["version"], hand_n=len(sc["hand"]), tool_n=len(sc["tool_prefix"]),
